@@ -64,5 +64,11 @@ let handle = function
        let syms = sorted (List.map (fun (n, y) -> si n ^ "@" ^ rname y.sy_ref ^ (if y.sy_at_end then "$" else "")) s.a_syms) in
        let edges = sorted (List.map (fun e -> bname e.ae_src ^ ">" ^ rname e.ae_tgt ^ ":" ^ si e.ae_type ^ (if e.ae_cond then "c" else "") ^ (if e.ae_direct then "d" else "i")) s.a_cfg) in
        cat " | " (sects @ ["syms " ^ cat "," syms; "edges " ^ cat "," edges; "proxies " ^ string_of_int (List.length s.a_proxies)]))
+  | "createir" ->
+    (* the operand-size tables of the sections of a result -> the IR's symbolicExpressionSizes, keyed by (section, offset) *)
+    let sects = listn (fun () -> let name = nn () in let sizes = listn (fun () -> let o = next_z () in let z = next_z () in (o, z)) in
+                        { as_name = name; as_exec = false; as_len = z_of_str "0"; as_blocks = []; as_symex = []; as_sizes = sizes; as_align = [] }) in
+    let s = { a_sects = sects; a_cur = None; a_syms = []; a_cfg = []; a_code = []; a_types = []; a_proxies = []; a_next = nat_of_int 0 } in
+    cat "," (sorted (List.map (fun ((n, o), z) -> si n ^ ":" ^ str_of_z o ^ ":" ^ str_of_z z) (ir_sizes s)))
   | c -> failwith ("unknown command " ^ c)
 let () = main_loop handle
